@@ -24,7 +24,7 @@ RULE = ("every gate class x every target_qubit option x every basis input; SWAP 
         "pi/4, +-2pi, ...) plus seeded random angles; distinct = (gate, option, angle); non-trivial = every case "
         "(each checks a full amplitude matrix incl. relative phases)")
 MANDATORY = ["single_qubit", "rotation", "CZ", "CNOT", "CZ_Heralded", "CNOT_Heralded", "CCZ", "CCNOT", "SWAP",
-             "heralded_leakage_checked"]
+             "heralded_leakage_checked", "second_pass_shuffled"]
 DECIDING = ["mon.gate_postconditions"]
 BUDGET = {"quick": 20, "thorough": 240}
 SHARDS = {"quick": 8, "thorough": 16}
@@ -136,6 +136,13 @@ def run(ctx):
         if i % ctx.nshards != ctx.shard:
             continue
         run_job(ctx, q, name, args)
+    # second pass over the discrete part in a seeded random order: a gate must not depend on what was built before
+    _seen.clear()
+    mine = [j for i, j in enumerate(jobs) if i % ctx.nshards == ctx.shard and j[0] not in ROT]
+    for idx in rng.permutation(len(mine)):
+        name, args = mine[int(idx)]
+        run_job(ctx, q, name, args)
+        ctx.bucket("second_pass_shuffled")
     # sampled continuum
     while not ctx.out_of_time():
         name = str(rng.choice(ROT))
